@@ -733,3 +733,22 @@ Definition gb_record_lines (r : gb_rec) : list str :=
   gb_locus_line r :: gb_extra r ++ s_origin :: gb_origin_lines (S (length (gb_seq r))) 1 (gb_seq r) ++ [s_double_slash].
 
 Definition gb_write (recs : list gb_rec) : str := join_lines (flat_map gb_record_lines recs).
+
+(* ------------------------------------------------------------------ file name -> (format, compression) *)
+(** util/io.py get_format_suffixes.  [path_name], [path_suffix], [path_suffixes] are the pathlib properties of
+    Lib/Chars.v; [_wout_period.sub("", sfx)] drops the leading '.'; [.lower()] is ASCII lower-casing here *)
+Definition compression_suffixes : list str := [[98; 122; 50]; [103; 122]; [122; 105; 112]].     (* bz2 gz zip *)
+
+Definition get_format_suffixes (filename : str) : option str * option str :=
+  let name := path_name filename in
+  match path_suffix name with
+  | [] => (None, None)
+  | _ =>
+      let suffixes := map (fun sfx => ascii_lower (tl sfx)) (last_n 2 (path_suffixes name)) in
+      let lst := last suffixes [] in
+      let cmp := if mem_str lst compression_suffixes then Some lst else None in
+      match cmp with
+      | Some _ => (match suffixes with [a; _] => Some a | _ => None end, cmp)
+      | None => (Some lst, None)
+      end
+  end.
